@@ -542,7 +542,7 @@ func c19Real(c *core.Case, o *core.Outcome) {
 		if r.IntN(2) == 0 {
 			res.SnapshotProgress(time.Duration(r.IntN(3)) * time.Second)
 		} else {
-			res.GetTotals()
+			engine.TakeTotals(res)
 		}
 		// stragglers: outcomes recorded after the totals were taken (iterations finishing after the completion
 		// timeout); the summary is rendered from the result, whose counts and verdict were fixed by the snapshot
@@ -783,7 +783,7 @@ func c19Observer(c *core.Case, o *core.Outcome) {
 		stats.Record(metrics.FailedResult, int64(1+i%777))
 		stats.Record(metrics.DroppedResult, 0)
 		if i%3 == 2 {
-			res.GetTotals()
+			engine.TakeTotals(res)
 		} else {
 			res.SnapshotProgress(time.Second)
 		}
